@@ -48,7 +48,9 @@ MANIFEST = {
                   "forward expansion proved by induction over the horizon; the leads of xi+ are the states of the model-consistent "
                   "continuation (via the dynamic identities, which are proved to exist for every token set and to be x{k}(t) = x{k+1}(t-1)); "
                   "a steady state of the system is a fixed point of the recursion and level = steady + deviation period by period; the "
-                  "deviation path satisfies the homogeneous system; measurement block; STABLE iff #unstable = #forward-looking, the three "
+                  "same along a GROWING steady-state path (three consecutive points of an affine path satisfying the system are one step of the "
+                  "recursion; C = -(A xi + B xi_lagged) makes that hold by construction); the deviation path satisfies the homogeneous "
+                  "system; measurement block; STABLE iff #unstable = #forward-looking, the three "
                   "eigenvalue classes partition, and the QZ ordering predicate agrees with the classifier (predicates regenerated from "
                   "fords/solutions.py); the recursion matrix has exactly the generalised eigenvalues of the pencil block ordered first. "
                   "Correspondence: random models as source text -> from_string/assign/steady/solve/simulate, all 15 solution matrices, "
@@ -680,6 +682,29 @@ class Bundle:
                 f"{forward} [{'; '.join(raw(x) for x in exp)}] then [] else [0])")
         self.checks.append(("expansion", term, [f"expand_square_solution({forward})"]))
 
+    # ---- stage (e): the constant vector of a model that is not declared linear, from the steady-state path
+    def add_constant_check(self):
+        if self.spec["linear"]:
+            return False
+        m, sv, sy = self.m, self.d.system_vectors, self.rec.system
+        lev, chg = dict(m.get_steady_levels()), dict(m.get_steady_changes())
+        xi, xil = [], []
+        for t in sv.transition_variables:
+            nm = self.names[t.qid]
+            L, c = float(lev[nm]), chg.get(nm)
+            lg = bool(self.logly.get(t.qid))
+            c = (1.0 if lg else 0.0) if (c is None or c != c) else float(c)
+            if lg:
+                L, c = math.log(L), math.log(c)
+            xi.append(L + t.shift * c); xil.append(L + (t.shift - 1) * c)
+        if not np.all(np.isfinite(xi + xil)):
+            return False
+        nrow, ncol = sy.A.shape
+        term = (f"A.check_constant {nrow} {ncol} {self.name('yA', sy.A)} {self.name('yB', sy.B)} {raw(np.array(xi))} "
+                f"{raw(np.array(xil))} {self.name('yC', sy.C)}")
+        self.checks.append(("constant", term, ["C = -(A xi + B xi_lagged) on the steady-state path"]))
+        return True
+
     # ---- stage (c)
     def add_token_check(self):
         spec, d = self.spec, self.d
@@ -993,6 +1018,7 @@ def correspondence(ctx) -> CorrResult:
         dist["max_contract_residual"] = max(dist["max_contract_residual"], worst)
         dist["max_condition"] = max(dist["max_condition"], cond)
         b.add_solution_check()
+        dist["constant_checks"] = dist.get("constant_checks", 0) + int(b.add_constant_check())
         b.add_token_check()
         if not b.add_stability_check():
             dist["skipped"]["nan-eigenvalue"] = dist["skipped"].get("nan-eigenvalue", 0) + 1
@@ -1021,6 +1047,7 @@ def correspondence(ctx) -> CorrResult:
         dist["states"][str(ns)] = dist["states"].get(str(ns), 0) + 1
         dist["forwards"][str(b.nf)] = dist["forwards"].get(str(b.nf), 0) + 1
         dist["log_models"] += int(any(spec["logs"])); dist["linear_flag"] += int(spec["linear"])
+        dist["growth_models"] = dist.get("growth_models", 0) + int(bool(spec.get("growth")))
         dist["nonlinear_models"] += int(any(e["nl"] for e in spec["eqs"])); dist["measurement"] += int(bool(spec["meas"]))
         if len(samples) < 3:
             samples.append({"source": render_source(spec)[0], "system_vector": [(t.qid, t.shift) for t in
@@ -1062,7 +1089,8 @@ def correspondence(ctx) -> CorrResult:
     res.samples = samples
     res.rule = ("one generated determinate model (1-4 variables, lags/leads <= 3, log-variables, constants, measurement block, "
                 "optionally a product term) -> Simultaneous.from_string/assign/steady/solve with QZ and Schur recorded; checks per "
-                "model: 15 solution matrices, forward expansion, token vectors + dynamic identities (exact), eigenvalue "
+                "model: 15 solution matrices, the constant vector C of models not declared linear (from the steady-state path, also "
+                "a growing one: 40% of the draws are balanced-growth versions with a stochastic trend), forward expansion, token vectors + dynamic identities (exact), eigenvalue "
                 "classification, and 3 simulations (random dated unanticipated/anticipated/measurement shocks, initial "
                 "conditions, deviation in {True,False}) compared cell by cell with the exact-rational model; "
                 "non-trivial = every scenario and every model-level check; distinct = distinct generated inputs")
